@@ -233,14 +233,32 @@ impl NearMisses {
                     out.push(ins.iter().collect());
                 }
             }
+            // the word as a proper prefix: every two-character tail
+            for l1 in letters.chars() {
+                for l2 in letters.chars() {
+                    out.push(format!("{w}{l1}{l2}"));
+                }
+            }
         }
         out
+    }
+    /// the same words with an upper-case first letter, in a statement (a word taken for a keyword is lower-cased)
+    fn capitalised_statements() -> Vec<String> {
+        Self::all()
+            .into_iter()
+            .filter(|w| w.chars().next().is_some_and(|c| c.is_ascii_alphabetic()))
+            .map(|w| {
+                let mut c = w.chars();
+                let f = c.next().unwrap().to_ascii_uppercase();
+                format!("begin {f}{} := 1; end.", c.as_str())
+            })
+            .collect()
     }
 }
 
 impl TextSource for Separators {
     fn name(&self) -> String {
-        "separator-comments(2 x 8 chars x 1..12 x 5 trailing blanks x 3 places)".into()
+        "separator-comments(2 x 11 chars (3 non-ASCII) x 1..12 x 5 trailing blanks x 3 places)".into()
     }
     fn len(&self) -> u64 {
         Separators::len(self)
@@ -447,6 +465,46 @@ fn or_c14(well_formed: bool) -> TextOracle {
 /// lines for which the wrapper has no solution (its fall-back logs the whole line), filled with long runs of
 /// multi-byte characters at every byte phase: any byte-indexed cut of the logged text lands inside a character
 /// for one of the phases
+/// n nested forced breaks (a line comment behind every opening bracket): the innermost lines carry n continuations
+fn c10_continuation_texts() -> Vec<String> {
+    let mut out = vec![];
+    for n in 1..=14usize {
+        for (open, close) in [("F(", ")"), ("[", "]"), ("A[", "]")] {
+            for depth in [0usize, 1, 3] {
+                let mut s = "begin ".repeat(depth + 1);
+                s.push_str("X := ");
+                for _ in 0..n {
+                    s.push_str(open);
+                    s.push_str(" // c\n");
+                }
+                s.push_str("1, 2");
+                s.push_str(&close.repeat(n));
+                s.push(';');
+                s.push_str(&" end;".repeat(depth + 1));
+                out.push(s);
+            }
+        }
+    }
+    out
+}
+
+/// a statement whose first token is a multi-line literal (or comment) with a wrappable tail on its last line
+fn c11_literal_first_texts() -> Vec<String> {
+    let mut out = vec![];
+    for head in ["'''\n    some text\n    more\n  '''", "'''\n  t\n  '''", "{ c\n  d }", "(* c\n d *)"] {
+        for tail in [".Replace(Alpha, Beta, Gamma);", ".Foo(A).Bar(Beta, Gamma + Delta);", " + Alpha + Beta * Gamma;", ".Replace(Alpha, Beta, Gamma).Trim;"] {
+            for lead in ["", "x;\n"] {
+                if head.starts_with('\'') || tail.starts_with('.') {
+                    let t = if head.starts_with('\'') { tail.to_string() } else { format!(" Obj{tail}") };
+                    out.push(format!("procedure Test;\nbegin\n  {lead}{head}{t}\nend;\n"));
+                    out.push(format!("begin begin\n  {lead}{head}{t}\nend; end.\n"));
+                }
+            }
+        }
+    }
+    out
+}
+
 fn c04_fallback_texts() -> Vec<String> {
     let mut out = vec![];
     for ch in ["\u{e9}", "\u{65e5}", "\u{1f600}"] {
@@ -1393,6 +1451,8 @@ pub fn families(check: &str, tier: &str) -> Vec<Box<dyn Family>> {
                     tf("c01", soup(2, GAPS8, &["%", "begin % end"]), &C_QUICK[..2], or_c01()),
                     tf("c01", large_texts(), &C_QUICK[..2], or_c01()),
                     tf("c01", TokenTails, &C_QUICK[..2], or_c01()),
+                    tf("c01", Separators, &one, or_c01()),
+                    tf("c01words", Texts { name: "capitalised-keyword-near-misses-in-a-statement".into(), items: NearMisses::capitalised_statements() }, &one, or_c01()),
                 ]
             } else {
                 vec![
@@ -1406,6 +1466,8 @@ pub fn families(check: &str, tier: &str) -> Vec<Box<dyn Family>> {
                     tf("c01", soup(2, GAPS8, CONTEXTS), &C_QUICK, or_c01()),
                     tf("c01", large_texts(), &C_QUICK, or_c01()),
                     tf("c01", TokenTails, &C_QUICK, or_c01()),
+                    tf("c01", Separators, &C_QUICK[..2], or_c01()),
+                    tf("c01words", Texts { name: "capitalised-keyword-near-misses-in-a-statement".into(), items: NearMisses::capitalised_statements() }, &one, or_c01()),
                     tf("c01", LongTokens { max_len: 300 }, &C_QUICK[..2], or_c01()),
                 ]
             }
@@ -1477,6 +1539,7 @@ pub fn families(check: &str, tier: &str) -> Vec<Box<dyn Family>> {
                     tf("c04", soup(2, GAPS8, &["%", "begin % end"]), &C_QUICK[..2], or_c04()),
                     tf("c04", large_texts(), &C_QUICK[..2], or_c04()),
                     tf("c04", TokenTails, &one, or_c04()),
+                    tf("c04", Separators, &one, or_c04()),
                     tf("c04", LongTokens { max_len: 100 }, &one, or_c04()),
                     tf("c04words", Words { max_len: 100, max_align: 40 }, &one, or_c04()),
                     tf("c04fallback", Texts { name: "no-solution-lines-with-multi-byte-runs-at-every-byte-phase".into(), items: c04_fallback_texts() }, &C_QUICK[..2], or_c04()),
@@ -1496,6 +1559,7 @@ pub fn families(check: &str, tier: &str) -> Vec<Box<dyn Family>> {
                     tf("c04", large_texts(), &C_QUICK, or_c04()),
                     tf("c04", Chars { n: 5 }, &one, or_c04()),
                     tf("c04", TokenTails, &C_QUICK[..2], or_c04()),
+                    tf("c04", Separators, &C_QUICK[..2], or_c04()),
                     tf("c04", LongTokens { max_len: 300 }, &C_QUICK[..2], or_c04()),
                     tf("c04words", Words { max_len: 200, max_align: 64 }, &one, or_c04()),
                     tf("c04fallback", Texts { name: "no-solution-lines-with-multi-byte-runs-at-every-byte-phase".into(), items: c04_fallback_texts() }, &C_QUICK, or_c04()),
@@ -1808,6 +1872,11 @@ pub fn families(check: &str, tier: &str) -> Vec<Box<dyn Family>> {
                 })),
                 sf("c10", &wf_seeds(), &bases[..if quick { 1 } else { 2 }], Box::new(move |s, c, ctx| body(&s.text, c, ctx))),
                 // indentations wider than 65 535 columns (every 16-bit column count overflows)
+                tf("c10conts", Texts { name: "1..14-nested-forced-breaks(calls,brackets,operators)".into(), items: c10_continuation_texts() }, &bases[..1], Box::new(move |x, c, ctx| {
+                    body(x, c, ctx);
+                    ctx.sub_eval();
+                    o2::c10_bracket_conts(x, c, ctx);
+                })),
                 tf("c10deep", Texts { name: "300-nested-blocks-and-continuations".into(), items: vec![
                     format!("{}x;{}", "begin ".repeat(300), " end;".repeat(300)),
                     format!("{}x := f(a, // c\n b);{}", "begin ".repeat(270), " end;".repeat(270)),
@@ -1878,6 +1947,8 @@ pub fn families(check: &str, tier: &str) -> Vec<Box<dyn Family>> {
                     o2::c11_dense_bytes(&o2::non_ascii_variant(&t[1]), ws, c, c11_tag(toks), ctx);
                 })),
                 sf("c11bytes", &wf_seeds(), &bases[..1], Box::new(move |s, c, ctx| o2::c11_dense_bytes(&o2::non_ascii_variant(&s.text), ws, c, None, ctx))),
+                tf("c11litfirst", Texts { name: "multi-line-token-first-in-its-line-with-wrappable-tail".into(), items: c11_literal_first_texts() }, &bases[..nb],
+                   Box::new(move |x, c, ctx| o2::c11_dense_bytes(x, ws, c, None, ctx))),
                 tf("c11lits", two_lits(), &bases[..1], wf_lits_box(Box::new(move |x, c, ctx| o2::c11_dense(x, ws, c, Some("multi-line-literals"), ctx)))),
                 // single logical lines of several thousand tokens (generated tables): budgets of the search
                 // (iteration limit) must not make the outcome depend on the width
@@ -2131,6 +2202,7 @@ pub fn replay(case: &Value, ctx: &mut Ctx) -> bool {
             &c,
             ctx,
         ),
+        "c10_brackets" => o2::c10_bracket_conts(&input, &c, ctx),
         "c10_linear" => o2::c10_linear(&input, &[case["ci"].as_u64().unwrap_or(2) as u8], &c, ctx),
         "c11" => o2::c11_dense_bytes(
             &input,
